@@ -300,8 +300,8 @@ public:
     const int maxWaitMs = 5000;  // Maximum 5 seconds
     while (waitMs < maxWaitMs)
     {
-      auto activeCount = _activeThreads.load(std::memory_order_acquire);
       auto pendingCount = getPendingTaskCount();
+      auto activeCount = _activeThreads.load(std::memory_order_acquire);
 
       if (activeCount == 0 && pendingCount == 0)
       {
@@ -331,8 +331,8 @@ public:
     // There's a narrow race where a thread could grab a task between when we check
     // and when the wait exits. Add a short delay and re-verify.
     std::this_thread::sleep_for(std::chrono::milliseconds(10));
-    auto finalActiveCount = _activeThreads.load(std::memory_order_acquire);
     auto finalPendingCount = getPendingTaskCount();
+    auto finalActiveCount = _activeThreads.load(std::memory_order_acquire);
 
     if (finalActiveCount != 0 || finalPendingCount != 0)
     {
@@ -345,8 +345,8 @@ public:
       const int raceMaxWaitMs = 1000;  // 1 second max
       while (raceWaitMs < raceMaxWaitMs)
       {
-        auto activeCount = _activeThreads.load(std::memory_order_acquire);
         auto pendingCount = getPendingTaskCount();
+        auto activeCount = _activeThreads.load(std::memory_order_acquire);
 
         if (activeCount == 0 && pendingCount == 0)
         {
@@ -535,8 +535,8 @@ public:
 
     while (waitMs < maxWaitMs)
     {
-      auto activeCount = _activeThreads.load(std::memory_order_acquire);
       auto pendingCount = getPendingTaskCount();
+      auto activeCount = _activeThreads.load(std::memory_order_acquire);
 
       if (activeCount == 0 && pendingCount == 0)
       {
@@ -883,6 +883,8 @@ private:
               VALIDATE_CANARY();
               ++_busyThreads; // Thread has picked up work (for spawning
                               // decisions)
+              ++_activeThreads; // Counted before the lock is released: drain/shutdown
+                                // must never see "queue empty and nobody active" in between
             }
           }
 
@@ -890,7 +892,6 @@ private:
           if (task)
           {
             VALIDATE_CANARY();
-            ++_activeThreads; // Thread is now executing (for monitoring)
             try
             {
               VALIDATE_CANARY();
@@ -1026,8 +1027,8 @@ private:
 
     while (waitMs < maxWaitMs)
     {
-      auto activeCount = _activeThreads.load(std::memory_order_acquire);
       auto pendingCount = getPendingTaskCount();
+      auto activeCount = _activeThreads.load(std::memory_order_acquire);
 
       if (activeCount == 0 && pendingCount == 0)
       {
